@@ -958,7 +958,7 @@ class IntShim(metaclass=_IntMeta):
     @staticmethod
     def from_bytes(data, byteorder='big', *, signed=False):
         from vf import symbytes
-        if builtins.isinstance(data, (symbytes.View, symbytes.Buf)):
+        if builtins.isinstance(data, (symbytes.View, symbytes.Buf, symbytes.ByteList)):
             return symbytes.bytes_to_int(data, byteorder, signed)
         return builtins.int.from_bytes(data, byteorder, signed=signed)
 
